@@ -783,6 +783,12 @@ def run_hook_side(case, kind):
         after = list(log)[len(log_before):]
         if any("ignored GeneratorExit" in str(x) for c in cleanup for x in c):
             after = "(not compared after an ignored GeneratorExit)"
+        elif "fz" not in gc_line:
+            # no finalizer hook took the generator: whatever clean-up happens is the interpreter closing
+            # the object at deallocation.  A body that yields while being closed that way is told so in
+            # different places by design (the native generator's close() raises outside the body, an
+            # ayield() during closing raises RuntimeError inside it), and the error is unraisable anyway.
+            after = "(not compared: closed by the garbage collector, no finalizer hook)"
         return lines, outs, dets, gc_line, {"aclose": cleanup, "log_after_gc": after}
     finally:
         sys.set_asyncgen_hooks(*old)
